@@ -47,11 +47,11 @@ TARGETS = {
     "fuzz_read": (1.0, 3),
     "fuzz_store": (1.0, 2),
     "fuzz_sidecar": (1.0, 1),
-    "fuzz_ingredient": (1.0, 2),
+    "fuzz_ingredient": (0.4, 2),
     "fuzz_archive": (1.0, 1),
     "fuzz_write": (1.0, 2),
     "fuzz_struct": (0.5, 3),
-    "fuzz_store_mut": (0.5, 1),
+    "fuzz_store_mut": (0.4, 1),
     "fuzz_store_rt": (1.0, 1),
 }
 EMPTY_CORPUS_TARGETS = ["fuzz_read", "fuzz_store"]
@@ -67,7 +67,7 @@ CPU_LIMIT = {"asan": 3 * TIMEOUT, "rel": TIMEOUT}
 
 def env_for(extra=None, build="asan"):
     e = dict(os.environ)
-    e["ASAN_OPTIONS"] = "detect_odr_violation=0:detect_leaks=0:symbolize=1"
+    e["ASAN_OPTIONS"] = "detect_odr_violation=0:detect_leaks=0:symbolize=1:allocator_may_return_null=1"
     e["VERIF_FUZZ_STATS_DIR"] = f"{WORK}/stats"
     e["VERIF_ROOT_DIR"] = ROOT
     e["RUST_BACKTRACE"] = "0"
@@ -642,6 +642,10 @@ def finish(d, t_start):
     os.makedirs(f"{ROOT}/evidence", exist_ok=True)
     with open(f"{ROOT}/evidence/C10.json", "w") as f:
         json.dump(ev, f, indent=1)
+    if os.environ.get("VERIF_FUZZ_KEEP", "0") != "1":
+        # keep the work area small: only the logs stay (failing inputs were copied to replays/C10 above)
+        for sub in ("corpus", "artifacts", "stats", "merged", "empty"):
+            shutil.rmtree(f"{WORK}/{sub}", ignore_errors=True)
     print(f"C10 {d.tier}: evaluations={evaluations} distinct_nontrivial={distinct} violations={len(viol_list)} known={len(known_obs)} wall={ev['wall_s']}s")
     for v in viol_list:
         print(f"  violation {v['signature']} [{v['target']}, {v['build']} build, {v['phase']}]: {v['what'][:300]}")
